@@ -1,7 +1,7 @@
 (* Props/C06.v — audited surface for property C06 (error / failure policy state machine). *)
 From Coq Require Import ZArith List Bool PrimFloat String.
 Import ListNotations.
-Require Import PyBase Solver SolverFacts SolverFacts2 SolverF SolverExamples.
+Require Import PyBase Solver SolverFacts SolverFacts2 SolverFacts3 SolverF SolverExamples.
 Require Fsic.Gen.Generated.
 Open Scope Z_scope.
 
@@ -123,6 +123,112 @@ Section C06.
     (forall x, nth_error (status s') p = Some x ->
        Some x = nth_error (status s) p \/ (x = ErrorSt /\ errors o = ERaise) \/ (x = Failed /\ e = NonConvergenceError)).
   Proof. exact (raise_classes num sub absf ltb isfin zero ev before after d o t s s' e p). Qed.
+
+  (* errors='replace', complete rule (mirrors the code, finding #5 included): the loop's LOCAL vector `rcur` is the stored
+     check vector except that after a non-finite pass its non-finite entries are zero; '.' at the first pass >= max(1,min_iter)
+     whose local start vector and stored end vector are finite and which converged against the LOCAL vector; else 'F', max_iter *)
+  Theorem C06_replace_policy d o t s p v1 :
+    min_iter o <= max_iter o ->
+    py_pos (List.length (status s)) t = Some p -> feasible d (List.length (status s)) p = true -> offset o = 0 ->
+    is_raise (errors o) && negb (all_finite (get_check d (vals_of s) p)) = false ->
+    before t (errors o) (catch_first o) 0%nat (vals_of s) = (v1, None) ->
+    errors o = EReplace ->
+    (forall i, (1 <= i <= Z.to_nat (max_iter o))%nat -> snd (evk o t i (st_after o t v1 (i - 1))) = None) ->
+    solve_t_M d o t s =
+    match find_first (rconvk num sub absf ltb isfin zero ev d o t p (get_check d (vals_of s) p) v1) 1 (Z.to_nat (max_iter o)) with
+    | Some k0 =>
+        match afterk num after o t k0 (st_after o t v1 k0) with
+        | (v'', Some c) =>
+            (mkState v'' (status s) (iters s) (log s ++ [EvBefore t] ++ pass_events t 1 k0 ++ [EvAfter t k0]),
+             Raise (SolutionError (Some c)))
+        | (v'', None) =>
+            (mkState v'' (upd p Solved (status s)) (upd p (Z.of_nat k0) (iters s))
+                     (log s ++ [EvBefore t] ++ pass_events t 1 k0 ++ [EvAfter t k0]), Ret true)
+        end
+    | None =>
+        (mkState (st_after o t v1 (Z.to_nat (max_iter o))) (upd p Failed (status s))
+                 (upd p (Z.of_nat (Z.to_nat (max_iter o))) (iters s))
+                 (log s ++ [EvBefore t] ++ pass_events t 1 (Z.to_nat (max_iter o))),
+         if fail_raise o then Raise NonConvergenceError else Ret false)
+    end.
+  Proof. exact (replace_policy num sub absf ltb isfin zero ev before after d o t s p v1). Qed.
+
+  (* raise / skip / ignore (and an invalid `errors`): whenever True is returned, the recorded pass k was JUDGED: it started
+     from finite stored check values, ended with finite ones, k >= min_iter, every check variable moved by < tol; exactly k
+     passes and both hooks ran *)
+  Theorem C06_solved_only_if_judged d o t s p v1 s' :
+    min_iter o <= max_iter o ->
+    py_pos (List.length (status s)) t = Some p -> feasible d (List.length (status s)) p = true -> offset o = 0 ->
+    is_raise (errors o) && negb (all_finite (get_check d (vals_of s) p)) = false ->
+    before t (errors o) (catch_first o) 0%nat (vals_of s) = (v1, None) ->
+    errors o <> EReplace ->
+    solve_t_M d o t s = (s', Ret true) ->
+    exists k, (1 <= k <= Z.to_nat (max_iter o))%nat /\
+      status s' = upd p Solved (status s) /\ iters s' = upd p (Z.of_nat k) (iters s) /\
+      all_finite (chkseq d o t p (get_check d (vals_of s) p) v1 (k - 1)) = true /\
+      all_finite (chkseq d o t p (get_check d (vals_of s) p) v1 k) = true /\
+      convk num sub absf ltb zero ev d o t p (get_check d (vals_of s) p) v1 k = true /\
+      vals_of s' = fst (afterk num after o t k (st_after o t v1 k)) /\
+      log s' = log s ++ [EvBefore t] ++ pass_events t 1 k ++ [EvAfter t k].
+  Proof. intros H1 H2 H3 H4 H5 H6. exact (solved_only_if_judged num sub absf ltb isfin zero ev before after d o t s p v1 H1 H2 H3 H4 H5 H6 s'). Qed.
+
+  (* the clause as worded — "a pass that starts from non-finite check values is never judged" — for raise / skip / ignore:
+     if the stored check vector after pass k-1 is non-finite, the period is not declared solved at pass k.
+     (For 'replace' the clause is REFUTED: C06_replace_judged_after_nonfinite_refuted below.) *)
+  Theorem C06_nonfinite_start_never_judged_partial d o t s p v1 s' k :
+    min_iter o <= max_iter o ->
+    py_pos (List.length (status s)) t = Some p -> feasible d (List.length (status s)) p = true -> offset o = 0 ->
+    is_raise (errors o) && negb (all_finite (get_check d (vals_of s) p)) = false ->
+    before t (errors o) (catch_first o) 0%nat (vals_of s) = (v1, None) ->
+    errors o <> EReplace -> List.length (iters s) = List.length (status s) ->
+    all_finite (chkseq d o t p (get_check d (vals_of s) p) v1 (k - 1)) = false ->
+    solve_t_M d o t s = (s', Ret true) ->
+    nth_error (iters s') p <> Some (Z.of_nat k).
+  Proof. intros H1 H2 H3 H4 H5 H6. exact (nonfinite_start_never_judged_partial num sub absf ltb isfin zero ev before after d o t s p v1 H1 H2 H3 H4 H5 H6 s' k). Qed.
+
+  (* an exception in the post-hook (finite regime, converging pass k0): SolutionError chained to it; status / iterations
+     of the period are NOT recorded *)
+  Theorem C06_after_exception_surfaces d o t s p v1 k0 v'' c :
+    min_iter o <= max_iter o ->
+    py_pos (List.length (status s)) t = Some p -> feasible d (List.length (status s)) p = true -> offset o = 0 ->
+    before t (errors o) (catch_first o) 0%nat (vals_of s) = (v1, None) ->
+    0 <= max_iter o ->
+    (forall i, (1 <= i <= Z.to_nat (max_iter o))%nat -> snd (evk o t i (st_after o t v1 (i - 1))) = None) ->
+    (forall i, (i <= Z.to_nat (max_iter o))%nat -> all_finite (chkseq d o t p (get_check d (vals_of s) p) v1 i) = true) ->
+    find_first (convk num sub absf ltb zero ev d o t p (get_check d (vals_of s) p) v1) 1 (Z.to_nat (max_iter o)) = Some k0 ->
+    afterk num after o t k0 (st_after o t v1 k0) = (v'', Some c) ->
+    solve_t_M d o t s =
+    (mkState v'' (status s) (iters s) (log s ++ [EvBefore t] ++ pass_events t 1 k0 ++ [EvAfter t k0]),
+     Raise (SolutionError (Some c))).
+  Proof. intros H1 H2 H3 H4 H5. exact (after_exception_surfaces num sub absf ltb isfin zero ev before after d o t s p v1 H1 H2 H3 H4 H5 k0 v'' c). Qed.
+
+  (* ANY call of solve_t (any arguments, oracles, state; no hypothesis at all): it either records nothing (and then does not
+     return a flag), or stamps exactly position t with '.', 'F', 'S' (only under skip) or 'E' (only under raise), the outcome
+     agreeing with the stamp: True iff '.', SolutionError with 'E', NonConvergenceError only with 'F' and failures='raise' *)
+  Theorem C06_solve_t_status_shape d o t s s' r :
+    solve_t_M d o t s = (s', r) ->
+    (status s' = status s /\ iters s' = iters s /\ (r = Ret true -> False) /\ (r = Ret false -> False)) \/
+    exists p x k, py_pos (List.length (status s)) t = Some p /\
+      status s' = upd p x (status s) /\ iters s' = upd p (Z.of_nat k) (iters s) /\
+      ((x = Solved /\ r = Ret true) \/
+       (x = Failed /\ (r = Ret false \/ (r = Raise NonConvergenceError /\ fail_raise o = true))) \/
+       (x = Skipped /\ errors o = ESkip /\ r = Ret false) \/
+       (x = ErrorSt /\ errors o = ERaise /\ exists c, r = Raise (SolutionError c))).
+  Proof. exact (solve_t_status_shape num sub absf ltb isfin zero ev before after d o t s s' r). Qed.
+
+  (* invariant over ARBITRARY sequences of solve_t calls (each with its own options, period and lags/leads; exceptions
+     caught by the caller): the status / iterations series keep their length, and every status is either the one the period
+     started with or one of '.', 'F', 'S', 'E' written by a call in the sequence aimed at that very period — 'S' only by a
+     call with errors='skip', 'E' only by one with errors='raise'; in particular every status is one of the five values *)
+  Theorem C06_calls_status_invariant cs s :
+    let s' := run_calls num sub absf ltb isfin zero ev before after cs s in
+    List.length (status s') = List.length (status s) /\ List.length (iters s') = List.length (iters s) /\
+    forall q x, nth_error (status s') q = Some x ->
+      In (st_char x) Generated.status_values /\
+      (nth_error (status s) q = Some x \/
+       exists c, In c cs /\ py_pos (List.length (status s)) (call_t num c) = Some q /\
+         (x = Solved \/ x = Failed \/ (x = Skipped /\ errors (call_opts num c) = ESkip) \/ (x = ErrorSt /\ errors (call_opts num c) = ERaise))).
+  Proof. exact (calls_status_invariant_alphabet num sub absf ltb isfin zero ev before after cs s). Qed.
 End C06.
 
 (* the five statuses of the model are the SolutionStatus values of the working tree (regenerated constant) *)
@@ -137,6 +243,25 @@ Theorem C06_catch_first_warning_no_store p pre i x rest v :
   no_stop pre = true ->
   run_actions true p (pre ++ AWarnSet i x :: rest) v = (fst (run_actions true p pre v), Some 1).
 Proof. exact (catch_first_warning_no_store p pre i x rest v). Qed.
+
+(* catch_first_error at the level of solve_t, for every scripted model: under errors='raise' with catch_first_error the
+   statement of pass k+1 that issues the warning does not store (nor do the statements after it; those before it have);
+   'E', iterations = k+1, SolutionError chained to the warning *)
+Theorem C06_catch_first_no_store sc d (o : fopts) t (s : fstate) p ps k pre i x rest :
+  min_iter o <= max_iter o ->
+  py_pos (List.length (status s)) t = Some p -> feasible d (List.length (status s)) p = true -> offset o = 0 ->
+  errors o = ERaise -> catch_first o = true ->
+  all_finite float fisfin (get_check float fzero d (vals_of s) p) = true ->
+  lookup p sc = Some ps -> sbefore ps = [] ->
+  (S k <= Z.to_nat (max_iter o))%nat ->
+  quiet float PrimFloat.sub PrimFloat.abs PrimFloat.ltb fisfin fzero (s_ev (List.length (status s)) sc) d o t p
+        (get_check float fzero d (vals_of s) p) (vals_of s) k ->
+  nth k (spasses ps) [] = pre ++ AWarnSet i x :: rest -> no_stop pre = true ->
+  let vk := st_after float (s_ev (List.length (status s)) sc) o t (vals_of s) k in
+  f_solve_t sc d o t s =
+  (mkState (fst (run_actions true p pre vk)) (upd p ErrorSt (status s)) (upd p (Z.of_nat (S k)) (iters s))
+           (log s ++ [EvBefore t] ++ pass_events t 1 (S k)), Raise (SolutionError (Some 1))).
+Proof. exact (f_catch_first_no_store sc d o t s p ps k pre i x rest). Qed.
 
 (* finding #5: under 'replace' the pass after a non-finite pass IS judged (against zeros) — the clause
    "a pass that starts from non-finite check values is never judged" is refuted for replace *)
@@ -154,8 +279,17 @@ Print Assumptions C06_before_exception_surfaces.
 Print Assumptions C06_preexisting_nonfinite_rejected.
 Print Assumptions C06_solved_flag_iff_dot.
 Print Assumptions C06_raise_classes.
+Print Assumptions C06_replace_policy.
+Print Assumptions C06_solved_only_if_judged.
+Print Assumptions C06_nonfinite_start_never_judged_partial.
+Print Assumptions C06_after_exception_surfaces.
+Print Assumptions C06_solve_t_status_shape.
+Print Assumptions C06_calls_status_invariant.
+Print Assumptions C06_catch_first_no_store.
 Print Assumptions C06_status_alphabet_matches_source.
 Print Assumptions C06_status_always_in_alphabet.
 Print Assumptions C06_catch_first_warning_no_store.
 Print Assumptions C06_replace_judged_after_nonfinite_refuted.
 Print Assumptions ex6_quiet_satisfiable.
+Print Assumptions ex7_catch_first.
+Print Assumptions ex8_never_judged_hypotheses_satisfiable.
